@@ -341,6 +341,9 @@ func c07(c *Ctx) {
 	r.Check(okRet, "R-C07.5", dname+" returns attemptFetch's error unwrapped or joined", p.Pos(afc[0].Pos()), "errors.Is(err, ErrNotAuthorized) holds for the caller", "Dial re-wraps the fetch error without %w/Join: callers cannot recognise ErrNotAuthorized")
 
 	c09Filters(c)
+	// the verification both sides run (chain to the given pool, nonce as DNS name, expected key): C02's rule, evaluated here too
+	c.R.Rule("R-C02.1", "VerifyConnection closure of tls.standardTlsConfig (C02's rule, evaluated here: the client relies on it to reject foreign roots and certificates minted for another nonce)")
+	c02Verify(c)
 }
 
 // c07ClientCert checks the certificate-selection callback installed by
